@@ -246,7 +246,7 @@ PROPS = {
         "note": "converter generators (user code run while the graph is built) are outside the statement.",
         "theorems": ["ArgMapper.C09.redefine_ignores_original_behaviour", "ArgMapper.C09.redefine_deterministic", "ArgMapper.C09.redefine_keeps_state", "ArgMapper.C09.redefines_transparent", "ArgMapper.C09.redefines_keep_memo", "ArgMapper.C09.call_after_redefines"], "facts": {"r5SkipSame": "true", "r6NameTest": "true", "publishAfterUpdate": "true", "trackReaching": "true", "takeValuedNamed": "true", "hopCopies": "true", "memoCopy": "true", "r8SkipSupplied": "true", "skipRecordsInput": "false", "dupIsError": "true", "onceLockCoversCall": "true"},
         "rule": "redef: any planning run.",
-        "runs": {"quick": [fam("redef", 400, 0), fam("hist", 500, 0), fam("redefgen", 60, 0)],
+        "runs": {"quick": [fam("redef", 900, 0), fam("hist", 500, 0), fam("redefgen", 60, 0)],
                  "thorough": [fam("redef", 30000, 0), fam("hist", 40000, 0), fam("redefgen", 3000, 0)]},
     },
     "C10": {
